@@ -22,7 +22,7 @@ TRUSTED_BASE = [
     "the table model and its selection are those of model/EventLog.v (C06)",
     "the model consumes the replica's logs as observed before the upgrade",
 ]
-ASSUMPTIONS = ["one attachment per upgraded client account and one extra attachment-less account per data directory; richer blob histories are C17's",
+ASSUMPTIONS = ["one file secret with two further attachments (three blobs under one secret id) per upgraded client account and one extra attachment-less account per data directory; richer blob histories are C17's",
                "preferences and the server list are not populated by the histories; trusted devices are compared through the device log"]
 
 
@@ -31,6 +31,11 @@ def corpus():
         "c19 k_client side=client hist=s0|c0:a|c0:b|f0:1|c0:c@1|s0|s1|u1:a|s1",
         "c19 k_server side=server hist=s0|c0:a|c0:b|f0:1|c0:c@1|s0|s1|u1:a|s1",
         "c19 k_unsynced side=client hist=s0|s1|c0:a|c1:b|f0:1|g0:1:16|k0:1|x0:a|p0:0",
+        # folders carrying the flags an application may give them: NO_SYNC, LOCAL, SYSTEM (a SYSTEM user folder is the
+        # known finding C19-system-flagged-folder-aborts-upgrade)
+        "c19 k_flag_nosync side=client hist=c0:a|f0:1|c0:b@1|g0:1:128|s0",
+        "c19 k_flag_local side=client hist=c0:a|f0:1|c0:b@1|g0:1:256|s0",
+        "c19 k_flag_system side=client hist=c0:a|f0:1|c0:b@1|g0:1:32|s0",
         "c19 k_twin mode=twin hist=s0|c0:a|c0:b|f0:1|c0:c@1|r0:1:2|s0|s1|u1:a|x1:b|s1|s0",
     ]
 
@@ -97,7 +102,10 @@ def oracle(case, obs):
     if ukv.get("dry_unchanged") != "1":
         fails.append({"oracle": "dry_run_touched_source", "detail": "the dry run changed the source directory"})
     if ukv.get("dry") != "ok" or ukv.get("real") != "ok":
-        fails.append({"oracle": "upgrade_failed", "detail": "dry=%s real=%s" % (ukv.get("dry"), ukv.get("real"))})
+        sysflag = any(h[:1] == "g" and len(h.split(":")) > 2 and h.split(":")[2].isdigit() and int(h.split(":")[2]) & 32
+                      for h in kv.get("hist", "").split("|"))
+        fails.append({"oracle": "upgrade_failed", "system_flagged_folder": bool(sysflag and "FolderNotFound" in (ukv.get("dry") or "")),
+                      "detail": "dry=%s real=%s" % (ukv.get("dry"), ukv.get("real"))})
         return fails
     if ukv.get("reopen") != "ok":
         fails.append({"oracle": "reopen_failed", "detail": "the upgraded directory does not open on the database backend: %s" % ukv.get("reopen")})
